@@ -64,7 +64,7 @@ else:
     wts = queue.Queue()
     made = []
     for i in range(a.j):
-        wt = f"/tmp/wt-seedrun-{i}"
+        wt = f"/tmp/wt-seedrun-{os.getpid()}-{i}"
         subprocess.run(["git", "-C", "/repo", "worktree", "remove", "--force", wt], capture_output=True)
         assert subprocess.run(["git", "-C", "/repo", "worktree", "add", "--detach", wt, "HEAD"], capture_output=True).returncode == 0
         made.append(wt); wts.put(wt)
